@@ -97,24 +97,34 @@ __CPROVER_ensures ((__CPROVER_return_value == 1 && 0 <= gj && gj < n) ==> p[gj] 
 
 /* ---- add_1 / sub_1: chain with v at position 0 and 0 above */
 mp_limb_t __gmpn_add_1 (mp_ptr rp, mp_srcptr up, mp_size_t n, mp_limb_t v)
-__CPROVER_requires (1 <= n && n <= V_NMAX && 0 <= gk && gk < n)
+__CPROVER_requires (1 <= n && n <= V_NMAX && 0 <= gk && gk <= V_NMAX && 0 <= gj && gj <= V_NMAX)   /* a position >= n: nothing is promised about it */
 __CPROVER_requires (V_W_OK (rp, n) && V_R_OK (up, n) && V_SAME_OR_SEPARATE (rp, up, n))
-__CPROVER_assigns (__CPROVER_object_upto (rp, n * 8), g_ci, g_co)
-__CPROVER_ensures (g_ci <= 1 && g_co <= 1)
-__CPROVER_ensures (V_ADDREL (rp[gk], __CPROVER_old (up[gk]), (gk == 0 ? v : 0), g_ci, g_co))
+__CPROVER_assigns (__CPROVER_object_upto (rp, n * 8), g_ci, g_co, g2_ci, g2_co)
+__CPROVER_ensures (gk < n ==> (g_ci <= 1 && g_co <= 1))
+__CPROVER_ensures (gk < n ==> V_ADDREL (rp[gk], V_OLDSEL (gk < n, up + gk), (gk == 0 ? v : 0), g_ci, g_co))
 __CPROVER_ensures (gk == 0 ==> g_ci == 0)
 __CPROVER_ensures (gk == n - 1 ==> g_co == __CPROVER_return_value)
 __CPROVER_ensures (__CPROVER_return_value <= 1)
+/* second position gj (when inside the operand), and the link between adjacent positions */
+__CPROVER_ensures (gj < n ==> (g2_ci <= 1 && g2_co <= 1 && V_ADDREL (rp[gj], V_OLDSEL (gj < n, up + gj), (gj == 0 ? v : 0), g2_ci, g2_co)))
+__CPROVER_ensures ((gj < n && gj == 0) ==> g2_ci == 0)
+__CPROVER_ensures (gj == n - 1 ==> g2_co == __CPROVER_return_value)
+__CPROVER_ensures ((gj < n && gj == gk + 1) ==> g2_ci == g_co)
 ;
 mp_limb_t __gmpn_sub_1 (mp_ptr rp, mp_srcptr up, mp_size_t n, mp_limb_t v)
-__CPROVER_requires (1 <= n && n <= V_NMAX && 0 <= gk && gk < n)
+__CPROVER_requires (1 <= n && n <= V_NMAX && 0 <= gk && gk <= V_NMAX && 0 <= gj && gj <= V_NMAX)   /* a position >= n: nothing is promised about it */
 __CPROVER_requires (V_W_OK (rp, n) && V_R_OK (up, n) && V_SAME_OR_SEPARATE (rp, up, n))
-__CPROVER_assigns (__CPROVER_object_upto (rp, n * 8), g_ci, g_co)
-__CPROVER_ensures (g_ci <= 1 && g_co <= 1)
-__CPROVER_ensures (V_SUBREL (rp[gk], __CPROVER_old (up[gk]), (gk == 0 ? v : 0), g_ci, g_co))
+__CPROVER_assigns (__CPROVER_object_upto (rp, n * 8), g_ci, g_co, g2_ci, g2_co)
+__CPROVER_ensures (gk < n ==> (g_ci <= 1 && g_co <= 1))
+__CPROVER_ensures (gk < n ==> V_SUBREL (rp[gk], V_OLDSEL (gk < n, up + gk), (gk == 0 ? v : 0), g_ci, g_co))
 __CPROVER_ensures (gk == 0 ==> g_ci == 0)
 __CPROVER_ensures (gk == n - 1 ==> g_co == __CPROVER_return_value)
 __CPROVER_ensures (__CPROVER_return_value <= 1)
+/* second position gj (when inside the operand), and the link between adjacent positions */
+__CPROVER_ensures (gj < n ==> (g2_ci <= 1 && g2_co <= 1 && V_SUBREL (rp[gj], V_OLDSEL (gj < n, up + gj), (gj == 0 ? v : 0), g2_ci, g2_co)))
+__CPROVER_ensures ((gj < n && gj == 0) ==> g2_ci == 0)
+__CPROVER_ensures (gj == n - 1 ==> g2_co == __CPROVER_return_value)
+__CPROVER_ensures ((gj < n && gj == gk + 1) ==> g2_ci == g_co)
 ;
 
 /* ---- mpn_add / mpn_sub: {xp,xn} op {yp,yn}, xn >= yn >= 0, y zero-extended */
